@@ -1,7 +1,7 @@
 ---------------------------- MODULE Trace_Freezer ----------------------------
 (* Trace validation: an ndjson trace recorded from the real FreezerFiles (ckbv c09-drive) must be  *)
 (* a behaviour of Freezer.tla; every invariant is evaluated after every event.                    *)
-EXTENDS Freezer, Json, IOUtils, TLCExt
+EXTENDS Freezer, Json, IOUtils, TLCExt, Integers
 Rec == ndJsonDeserialize(IOEnv.TRACE)
 VARIABLE l
 tvars == <<vars, l>>
@@ -11,8 +11,8 @@ Is(e) == l <= Len(Rec) /\ Ev.ev = e /\ l' = l + 1
 \* what the code reported after the operation must be what the specification computes
 Observed == /\ number' = Ev.number /\ hf' = Ev.hid /\ hif' = Ev.hid /\ data'[Ev.hid] = Ev.hlen
             /\ Len(index') = Ev.idx
-            /\ Ev.good = Ev.number - 1      \* every item of the prefix read back byte-for-byte
-            /\ Ev.beyond = FALSE            \* nothing readable beyond the prefix
+            \* when the driver read the prefix back (good >= 0): every item byte-for-byte, nothing beyond
+            /\ (Ev.good >= 0 => (Ev.good = Ev.number - 1 /\ Ev.beyond = FALSE))
 TReset    == Is("Reset") /\ data' = [f \in Files |-> 0] /\ index' = << <<0, 0>> >> /\ torn' = FALSE /\ items' = <<>>
              /\ sData' = 0 /\ sIdx' = 1 /\ sHead' = 0 /\ open' = TRUE /\ hif' = 0 /\ hf' = 0 /\ number' = 1
              /\ fw' = 0 /\ fwKept' = 0
@@ -21,7 +21,9 @@ TSync     == Is("Sync") /\ Sync /\ Observed
 TTruncate == Is("Truncate") /\ Truncate(Ev.k) /\ Observed
 TCrash    == Is("Crash") /\ CrashTo(Ev.icut, Ev.torn, Ev.c)
 TReopen   == Is("Reopen") /\ Reopen /\ Observed
-TNext == TReset \/ TAppend \/ TSync \/ TTruncate \/ TCrash \/ TReopen
+\* a single read, in any order relative to the writes: no effect on the state, answer = the item / none beyond
+TRetrieve == Is("Retrieve") /\ open /\ (IF Ev.i < number THEN Ev.ok ELSE Ev.none) /\ UNCHANGED vars
+TNext == TRetrieve \/ TReset \/ TAppend \/ TSync \/ TTruncate \/ TCrash \/ TReopen
 TSpec == TInit /\ [][TNext]_tvars
 Accepted == LET d == TLCGet("stats").diameter IN
             IF d - 1 = Len(Rec) THEN TRUE
